@@ -1,10 +1,10 @@
 #!/bin/bash
-# seedall.sh [tier...]  — evaluates every seeded change under /verif/seeded with tools/seedeval.py (serially: each
-# one patches /repo for the duration of its check) and writes seeded/<id>/eval.json plus seeded/RESULTS.md.
-# Run it from the tree named by VERIF_DIR (default /verif); results are written to /verif/seeded.
+# seedall.sh [tier...]  — evaluates every seeded change under /verif/seeded with tools/seedeval.py --isolated
+# (each in its own scratch worktree of /repo and its own copy of the verification tree, 4 at a time; /repo itself is
+# not touched) and writes seeded/<id>/eval.json plus seeded/RESULTS.md.  SEED_JOBS overrides the parallelism;
+# SEED_INPLACE=1 uses the prescribed apply-to-/repo / run / undo procedure instead (serial).
 vd="${VERIF_DIR:-/verif}"
-for d in /verif/seeded/C*-*; do
-  [ -f "$d/patch.diff" ] || continue
-  python3 "$vd/tools/seedeval.py" "$d" "$@" > "$d/eval.json.tmp" 2>/dev/null && mv "$d/eval.json.tmp" "$d/eval.json" || { echo "seedeval failed for $d"; rm -f "$d/eval.json.tmp"; }
-done
+mode="--isolated"; jobs="${SEED_JOBS:-4}"
+if [ -n "$SEED_INPLACE" ]; then mode=""; jobs=1; fi
+ls -d /verif/seeded/C*-* | xargs -P "$jobs" -I{} sh -c "[ -f {}/patch.diff ] && python3 $vd/tools/seedeval.py {} $* $mode > {}/eval.json.tmp 2>/dev/null && mv {}/eval.json.tmp {}/eval.json || { echo 'seedeval failed for {}'; rm -f {}/eval.json.tmp; }"
 python3 "$vd/tools/seedresults.py"
